@@ -31,7 +31,7 @@ func pick(xs []string) string { return xs[rng.Intn(len(xs))] }
 
 // leaf alphabets ------------------------------------------------------------------------------------
 
-var fieldNames = []string{"a", "b", "f1", "k_2", `x\ y`, `"q f"`, "été", "5", "1.5", "c\\-d", "NOTE", "_id"}
+var fieldNames = []string{"a", "b", "f1", "k_2", `x\ y`, `"q f"`, "été", "5", "1.5", "c\\-d", "NOTE", "_id", `c\%d`, `"100%"`, `p\%s`}
 var plainWords = []string{"b", "foo", "bar9", "x_y", "été", "日本", "NaN", "Inf", "nan", "a.b", "c-d"}
 var intWords = []string{"5", "-3", "0", "007", "42", "9223372036854775807", "-9223372036854775808", "9223372036854775808", "9007199254740993", "010", "0100", "0x1f", "0b101", "0o17", "1_0", "08", "-010"}
 var floatWords = []string{"2.5", "1e6", "-0.0", "5.0", "0.125", "1.5", "-7.25", "1e-3", "0x1p-2", "1_000.5", "0.5"}
@@ -167,13 +167,32 @@ func genAtom(fielded bool) *qt {
 		lo, hi := rangeBound(), rangeBound()
 		return &qt{kind: "range", toks: []string{f, ":", o, lo, pick([]string{"TO", "to", "To"}), hi, c}}
 	}
-	// value list or a parenthesised value
-	n := 1 + rng.Intn(3)
-	var v *qt = &qt{kind: "term", toks: []string{plainValue()}}
-	for i := 1; i < n; i++ {
-		v = mk("or", v, &qt{kind: "term", toks: []string{plainValue()}})
+	// a field with a parenthesised value: a value list (any grouping of its ORs, repeated values), or any expression
+	if rng.Intn(4) == 0 {
+		return &qt{kind: "fe", toks: []string{f, ":"}, kids: []*qt{genTree(1+rng.Intn(2), false)}}
 	}
-	return &qt{kind: "fe", toks: []string{f, ":"}, kids: []*qt{v}}
+	n := 1 + rng.Intn(4)
+	vals := []*qt{}
+	for i := 0; i < n; i++ {
+		w := plainValue()
+		if i > 0 && rng.Intn(4) == 0 {
+			w = vals[rng.Intn(len(vals))].toks[0] // a repeated value
+		}
+		vals = append(vals, &qt{kind: "term", toks: []string{w}})
+	}
+	return &qt{kind: "fe", toks: []string{f, ":"}, kids: []*qt{orShape(vals)}}
+}
+
+// a random grouping of an OR chain: left-nested, right-nested (with the parentheses that requires), or mixed
+func orShape(vals []*qt) *qt {
+	if len(vals) == 1 {
+		return vals[0]
+	}
+	k := 1 + rng.Intn(len(vals)-1)
+	if rng.Intn(3) != 0 {
+		k = len(vals) - 1 // the usual left-deep chain
+	}
+	return mk("or", orShape(vals[:k]), orShape(vals[k:]))
 }
 
 func rangeBound() string {
@@ -207,11 +226,11 @@ func genTree(depth int, fielded bool) *qt {
 		return mk("mustnot", genTree(depth-1, fielded))
 	case 9:
 		t := mk("boost", genTree(depth-1, fielded))
-		t.num = pick([]string{"", "", "2", "0.5", "3.25", "10"})
+		t.num = pick([]string{"", "", "2", "0.5", "3.25", "10", "1", "1.0"})
 		return t
 	case 10:
 		t := mk("fuzzy", genTree(depth-1, fielded))
-		t.num = pick([]string{"", "", "2", "3", "7"})
+		t.num = pick([]string{"", "", "2", "3", "7", "0", "1"})
 		return t
 	}
 	return par(genTree(depth-1, fielded))
